@@ -111,6 +111,19 @@ def work(ident, prop, tier, tree):
                     rec["status"] = "solver-disagreement"
             if rec["status"] == "refuted":
                 rec["model"] = str(o.model)[:4000] if o.model is not None else None
+            if rec["status"] == "unknown" and o.oid not in replayed and (hasattr(k, "witness") or getattr(k, "bounded_driver", None)):
+                # undecided by the solver: a native search for a failing input may still settle it
+                replayed.add(o.oid)
+                try:
+                    w = k.witness(o) if hasattr(k, "witness") else dict(k.bounded_driver)
+                    rp = run_replay(w, tree)
+                except Exception as e:
+                    w, rp = None, {"reproduced": None, "detail": f"replay failed: {e}"}
+                if rp.get("reproduced"):
+                    rec["status"] = "refuted"
+                    rec["backend"] = "z3:unknown + native replay"
+                    rec["witness"] = w
+                    rec["replay"] = rp
             if rec["status"] == "refuted" and o.oid not in replayed:
                 replayed.add(o.oid)
                 try:
